@@ -81,7 +81,15 @@ def mutate(rng, msg: bytes) -> tuple[bytes, str]:
     else:
         idx = [i for i, x in enumerate(b) if x in (0x02, 0x06, 0x09, 0x0A, 0x10, 0x12, 0x0F, 0x16, 0x00, 0x01)]
         if idx:
-            b[rng.choice(idx)] = rng.choice((0x00, 0x01, 0x02, 0x06, 0x09, 0x0A, 0x0F, 0x10, 0x12, 0x16))
+            i = rng.choice(idx)
+            if rng.random() < 0.5:
+                b[i] = rng.choice((0x00, 0x01, 0x02, 0x06, 0x09, 0x0A, 0x0F, 0x10, 0x12, 0x16))
+            else:
+                # every type tag the COSEM data model knows (bit-string, bcd, int64, float32 / float64, date, time, compact array, ...),
+                # followed - where four octets are at hand - by the bit patterns that are special for that width (NaN, infinities, -0.0)
+                b[i] = rng.choice((0x03, 0x04, 0x05, 0x0D, 0x11, 0x13, 0x14, 0x15, 0x17, 0x17, 0x18, 0x19, 0x1A, 0x1B, 0x0C, 0xFF))
+                if i + 5 <= len(b) and rng.random() < 0.6:
+                    b[i + 1 : i + 5] = rng.choice((b"\x7f\xc0\x00\x00", b"\xff\xc0\x00\x01", b"\x7f\x80\x00\x00", b"\xff\x80\x00\x00", b"\x80\x00\x00\x00", b"\x7f\xf8\x00\x00", b"\x00\x00\x00\x01"))
     return bytes(b), kind
 
 
@@ -160,12 +168,20 @@ def structured_junk(rng) -> tuple[bytes, str]:
         return ce.apdu(c.body, None), kind
     gen = rng.choice((dlms_gen.aidon_case, dlms_gen.kaifa_case, dlms_gen.kamstrup_case))
     c = gen(rng)
-    b = bytearray(c.frame)
+    b = bytearray(c.frame if rng.random() < 0.7 else c.body)
     idx = [i for i in range(len(b) - 13) if b[i] == 0x0C and b[i + 1] in (0x07, 0x00, 0x08, 0x27)]
     if idx:
         i = rng.choice(idx)
-        for k in rng.sample(range(1, 13), rng.randint(1, 6)):
-            b[i + k] = 0xFF
+        if rng.random() < 0.4:
+            for k in rng.sample(range(1, 13), rng.randint(1, 6)):
+                b[i + k] = 0xFF
+        else:
+            # the values the COSEM date-time format reserves or that a calendar library refuses: year 0 / 0xFFFF / beyond 9999, month
+            # 0xFD / 0xFE (daylight-saving begin / end), day 0xFD / 0xFE (second-last / last day of the month), 0, 32, hour 24, ...
+            special = {1: (0x00, 0x27, 0x28, 0xFF, 0x80, 0x07), 2: (0x00, 0x10, 0x0F, 0xFF, 0xE4, 0x11), 3: (0x00, 0x0D, 0xFD, 0xFE, 0xFF, 0x02), 4: (0x00, 0x20, 0x1F, 0x1E, 0xFD, 0xFE, 0xFF),
+                       5: (0x00, 0x08, 0xFF), 6: (0x18, 0x17, 0xFF, 0x00), 7: (0x3C, 0x3B, 0xFF), 8: (0x3C, 0x3D, 0xFF), 9: (0x64, 0x63, 0xFF), 10: (0x80, 0x7F, 0xFD, 0x02), 11: (0x00, 0x01, 0xD0, 0x30), 12: (0xFF, 0x80, 0x00)}
+            for k in rng.sample(range(1, 13), rng.randint(1, 4)):
+                b[i + k] = rng.choice(special[k])
     return bytes(b), kind
 
 
@@ -243,6 +259,29 @@ def canonical_inputs() -> list[tuple[bytes, str]]:
             u = f"*{unit}" if unit else ""
             out.append((f"1-0:1.8.0({v}{u})\r\n".encode(), "canonical"))
             out.append((f"0-1:24.2.1(180924130000S)({v}{u})\r\n".encode(), "canonical"))
+    # every pair of (date-time field, reserved or out-of-calendar value) in one genuine message per meter (two coordinated changes)
+    special = {1: (0x00, 0x27, 0x28, 0xFF), 2: (0x00, 0x10, 0xFF, 0xE4), 3: (0x00, 0x0D, 0xFD, 0xFE, 0xFF, 0x02), 4: (0x00, 0x20, 0x1F, 0x1E, 0xFD, 0xFE, 0xFF),
+               6: (0x18, 0xFF), 7: (0x3C, 0xFF), 8: (0x3C, 0xFF), 9: (0x64, 0xFF), 10: (0x80, 0x7F), 12: (0xFF, 0x80)}
+    done = set()
+    for name in sorted(fixtures.DLMS):
+        fam, form, hx = fixtures.DLMS[name]
+        raw = bytes.fromhex(hx)
+        idx = [i for i in range(len(raw) - 13) if raw[i] == 0x0C and raw[i + 1] == 0x07]
+        if not idx or (fam, form) in done:
+            continue
+        done.add((fam, form))
+        i = idx[-1]
+        fields = sorted(special)
+        for a in range(len(fields)):
+            for va in special[fields[a]]:
+                one = bytearray(raw)
+                one[i + fields[a]] = va
+                out.append((bytes(one), "canonical"))
+                for b2 in range(a + 1, len(fields)):
+                    for vb in special[fields[b2]]:
+                        two = bytearray(one)
+                        two[i + fields[b2]] = vb
+                        out.append((bytes(two), "canonical"))
     for depth in (10, 20, 30, 40, 60):
         body = b"\x0f\x00"
         for _ in range(depth):
